@@ -2,7 +2,7 @@
    independent of the numeric time-stamps, for every formula: also for the
    precedes[b,e] nodes pastify() creates.  Property theorems only. *)
 From Coq Require Import List Arith ZArith.
-From RV Require Import Val Syntax Rho Offline ListFacts OfflineCorrect ExtZ.
+From RV Require Import Val Syntax Rho Offline ListFacts OfflineCorrect ExtZ PySem OfflineGen OfflineGenEval OfflineGenCorrect.
 Import ListNotations.
 
 (* the list program of every visitX equals the README robustness, for every
@@ -74,3 +74,47 @@ Proof.
     apply PeanoNat.Nat.succ_lt_mono, PeanoNat.Nat.succ_lt_mono in Hx. inversion Hx. }
   cbv zeta. repeat split; try reflexivity; try (apply W; reflexivity); repeat constructor.
 Qed.
+
+(* the same for what the code says NOW: OfflineGen.v is regenerated from the text of
+   rtamt/semantics/stl/discrete_time/offline/ast_visitor.py on every build (tools/py2coq_offline.py, fail-closed);
+   eval_gen dispatches over the generated visit methods.  No method raises (Some), the column is the hand model's
+   and the README robustness.  [a1 AR Neg = neg]: the visitor computes arithmetic negation and `not` with the same `-x`. *)
+Theorem C01_generated_visitor :
+  forall (VS : Val) (AR : Arith VS) (p : formula) (w : trace) (n : nat),
+    1 <= n -> wf_bounds p = true -> wf_trace p w n -> (forall x, a1 AR Neg x = neg x) ->
+    eval_gen AR p w n = Some (eval_off AR (fun _ _ => PStd) p w n) /\
+    eval_gen AR p w n = Some (tab (rho AR (fun _ _ => PStd) p w n) n).
+Proof. exact @offline_gen_refines. Qed.
+Print Assumptions C01_generated_visitor.
+
+Theorem C01_generated_evaluate :
+  forall (VS : Val) (AR : Arith VS) (T : Type) (p : formula) (ts : list T) (w : trace),
+    1 <= length ts -> wf_bounds p = true -> wf_trace p w (length ts) -> (forall x, a1 AR Neg x = neg x) ->
+    evaluate_gen AR p ts w = evaluate AR (fun _ _ => PStd) p ts w /\
+    evaluate_gen AR p ts w = Ok (combine ts (tab (rho AR (fun _ _ => PStd) p w (length ts)) (length ts))).
+Proof. exact @evaluate_gen_refines. Qed.
+Print Assumptions C01_generated_evaluate.
+
+(* non-vacuity: the extra hypothesis holds for the executable arithmetic, and the generated visitor really computes
+   the 7 values of C01_nonvacuous; outside the hypotheses the generated code raises where Python raises *)
+Example C01_generated_nonvacuous :
+  let p : @formula ExtZVal :=
+    Until (OnceT 1 2 (Pred CGeq (Var 0) (Const (Fin 1)))) (AlwT 0 3 (Not (Pred CLt (A1 Neg (Var 1)) (Var 0)))) in
+  let w7 := [[Fin 3; Fin 0; Fin (-1); Fin 4; Fin 2; Fin 2; Fin (-5)];
+             [Fin (-2); Fin 1; Fin 0; Fin 0; Fin 7; Fin (-3); Fin 1]] in
+  (forall x, a1 ExtZArith Neg x = neg x) /\
+  eval_gen ExtZArith p w7 7 = Some [Fin (-4); Fin (-1); Fin (-1); Fin (-1); Fin 3; Fin 3; Fin 4] /\
+  gen_visitTimedOnce 2 1 [Fin 1; Fin 2] = None /\                       (* begin > end: max() of an empty slice *)
+  gen_visitAddition ExtZArith [Fin 1; Fin 2] [Fin 1] = None.            (* operand columns of different lengths: IndexError *)
+Proof. cbv zeta. repeat split; reflexivity. Qed.
+
+(* outside wf_bounds (begin > end, which the parser rejects) the hand model is NOT the code: the generated visitor shows what
+   Python does there (an exception of max() on an empty slice; an empty range(end-begin+1)), the totalised hand model something else.
+   This is why C01_generated_visitor, like C01_rho, carries wf_bounds. *)
+Example C01_hand_model_differs_outside_wf_bounds :
+  let w := [[Fin 1; Fin 2; Fin 3]] in
+  eval_gen ExtZArith (OnceT 2 1 (Var 0)) w 3 = None /\
+  eval_off ExtZArith (fun _ _ => PStd) (OnceT 2 1 (Var 0)) w 3 = [NegInf; NegInf; NegInf] /\
+  eval_gen ExtZArith (SinceT 2 1 (Var 0) (Var 0)) w 3 = Some [NegInf; NegInf; NegInf] /\
+  eval_off ExtZArith (fun _ _ => PStd) (SinceT 2 1 (Var 0) (Var 0)) w 3 = [NegInf; Fin 1; Fin 2].
+Proof. cbv zeta. repeat split; reflexivity. Qed.
